@@ -180,6 +180,18 @@ CHECKS = {
         "assumptions": ["testing/synctest durable-block detection", "rapid v1.3.0; go1.26.8"],
         "jobs": [{"pkg": "c12merge", "kinds": ["chans-merge", "replicate", "stream-merge"], "scale_thorough": 10, "shards_thorough": 16, "replay_reps": 30}],
     },
+    "C13": {
+        "level": "exploration",
+        "level_text": ("Generated (function, n, parallelism incl. <= 0 and > n, per-call fake latency pattern, set of failing indexes, caller context live / cancelled / cancelled mid-flight) configurations run in testing/synctest bubbles "
+                       "with an instrumented f (per-index call counters, concurrency gauge, context state at entry and exit, non-atomic per-index cell), R times each; plus the same plans on real goroutines under the race detector. "
+                       "Oracle: at most once always and exactly once on nil, gauge <= effective parallelism, Map results in place, nothing running at return and nothing starting during a 5 s fake tail, error provenance, cancellation reaches running calls, began-cancelled <= parallelism-1"),
+        "level_note": "Interleavings are those the runtime produces for the generated latency patterns over repetitions; data races are decided by the race detector on the executed schedules.",
+        "technique": "property-based testing (rapid) in testing/synctest bubbles with counting/gauge oracle; race-detector runs",
+        "rule": ("kinds parallel (bubble) and parallel-race. non-trivial = n > parallelism >= 2 with non-uniform latencies or at least one failing index; distinct = distinct plan JSON; R=3/8"),
+        "assumptions": ["testing/synctest", "Go race detector", "rapid v1.3.0; go1.26.8"],
+        "jobs": [{"pkg": "c13par", "run": "TestParallelBubble", "kinds": ["parallel"], "scale_thorough": 8, "shards_thorough": 16, "replay_reps": 20},
+                 {"pkg": "c13par", "run": "TestParallelRace", "race": True, "kinds": ["parallel-race"], "scale_thorough": 8, "shards_thorough": 8, "replay_reps": 20}],
+    },
     "C04": {
         "level": "exploration",
         "level_text": ("Model-based property testing: thousands of generated operation histories (macro-ops reach wrapped, full, "
